@@ -47,7 +47,8 @@ SPEC = {
     "C11": ["fxprof-processed-profile/src/lib_mappings.rs", "fxprof-processed-profile/src/profile.rs::resolve_frame_address,add_lib_mapping,remove_lib_mapping,add_kernel_lib_mapping,remove_kernel_lib_mapping,clear_process_lib_mappings"],
     "C12": ["samply/src/shared/context_switch.rs"],
     "C13": ["samply-symbols/src/cache.rs", "samply-symbols/src/chunked_read_buffer_manager.rs"],
-    "C14": ["samply/src/shared/stack_depth_limiting_frame_iter.rs", "samply/src/shared/process_sample_data.rs", "samply/src/shared/stack_converter.rs"],
+    # stack_depth_limiting_frame_iter.rs is not pinned: it is translated on every run (tools/xlate_fl.py) and the translation is proved equal to the model
+    "C14": ["samply/src/shared/process_sample_data.rs", "samply/src/shared/stack_converter.rs"],
     "C15": ["samply-quota-manager/src/file_inventory.rs", "samply-quota-manager/src/quota_manager.rs"],
     "C16": ["wholesym/src/file_creation.rs", "wholesym/src/breakpad.rs::write_symindex", "wholesym/src/downloader.rs::download_to_file"],
     "C18": ["samply/src/server.rs::generate_token,symbolication_service,start_server,run_server"],
